@@ -14,17 +14,20 @@ CHECK = {
         "technique": "property-based testing (rapid) with state-relative adversarial ids (radius-1, radius, radius+1 in either byte order, farthest "
                      "retained item, single-bit neighbours, palindromic distances) and a defect classifier for the open finding",
         "runs": [
-            {"name": "store", "run": "^TestC06_Store$", "checks": {"quick": 200, "thorough": 1500}, "shards": {"quick": 1, "thorough": 16}},
+            {"name": "store", "run": "^TestC06_Store$", "checks": {"quick": 300, "thorough": 1500}, "shards": {"quick": 1, "thorough": 16}},
             # the in-range helper and its three call sites (package p_proto)
             {"name": "inrange", "package": "p_proto", "run": "^TestC06_InRange$", "checks": {"quick": 20000, "thorough": 300000}, "shards": {"quick": 1, "thorough": 16}},
             {"name": "boundary", "package": "p_proto", "run": "^TestC06_Boundary$", "checks": {"quick": 150, "thorough": 2000}, "shards": {"quick": 1, "thorough": 8}},
+            {"name": "gossipsite", "package": "p_proto", "run": "^TestC06_GossipSite$", "checks": {"quick": 60, "thorough": 150}, "shards": {"quick": 4, "thorough": 16}, "rounds": {"quick": 1, "thorough": 3}},
             {"name": "sites", "package": "p_proto", "run": "^TestC06_Sites$", "checks": {"quick": 2500, "thorough": 20000}, "shards": {"quick": 2, "thorough": 16}},
         ],
         "rule": "[in-range half, p_proto] rapid draws (node id, content id from classes uniform / shared prefix / single bit / chosen leading+trailing distance bytes / palindromic "
                 "distance, radius from classes dist-1, dist, dist+1, < 600, 2^k, 2^k+-1, max, between 257 and dist, the little-endian reading of the distance) for the helper, and "
                 "(content key, radius class) against the offer filter in both accept encodings and the store RPC of a real instance with a settable-radius store; judged: in range whenever "
                 "radius > XOR distance, out of range whenever radius < distance; at equality the helper must decide as the real pebble store's admission does (differential check on byte-palindromic distances, which read the same in either byte order). Non-trivial there = big- and little-endian readings order differently, "
-                "256 < radius <= distance, radius < 2^9, boundary. [store half, p_store] node id (zero, all-ones, single bit, random), capacity 1/2/0 MB, 1..70 operations (put, reopen, flush) with values of 0.5-3 pruning "
+                "256 < radius <= distance, radius < 2^9, boundary. Gossip site: 1..6 table nodes report (pong, a payload type the sub-network supports) a radius from the same classes relative to their own distance from the content; "
+                "with at most eight candidates the chosen set must be exactly {peer : radius > XOR distance}; non-trivial when the byte order of the reported radius decides the verdict. [store half, p_store] 30% of the histories are sparse "
+                "(2..12 puts of 0 B .. 110% of the capacity, each mostly closer than everything before it, so that a pruning pass can empty the store after the radius has shrunk); the others:  node id (zero, all-ones, single bit, random), capacity 1/2/0 MB, 1..70 operations (put, reopen, flush) with values of 0.5-3 pruning "
                 "quanta so that prunes come every few puts; ids: single bit, tiny, chosen log distance, big-endian-small/little-endian-large and "
                 "vice versa, palindromic, far end, uniform, existing, single-bit neighbour, the farthest retained item, and distances equal to the "
                 "current radius -1/0/+1 read big- or little-endian. After every step: every retained item has BE(distance) <= Radius(); refused => "
@@ -38,5 +41,5 @@ CHECK = {
             "store refuses at distance == radius, see classes boundary:*)",
         ],
         "required_classes": {"quick": ["prune+refusal", "radius-shrank", "palindromic-distance", "BE/LE-disagree-vs-radius",
-                                       "probe:radius+0,le=false", "probe:radius-1,le=false", "probe:radius+1,le=false", "reopen"]},
+                                       "probe:radius+0,le=false", "probe:radius-1,le=false", "probe:radius+1,le=false", "reopen", "prune-emptied-store-with-shrunk-radius", "gossip-site:byte-order-of-radius-matters", "gossip-site:covered-peer-chosen", "gossip-site:uncovered-peer-skipped"]},
     }
